@@ -215,7 +215,12 @@ pub fn run_loop(it: &mut Interp, shape: &Shape, ctxs: &[usize], n: u32, failures
         }
     }
     let (defs, start) = program(shape, ctxs, n);
-    for d in &defs {
+    run_forms(it, &defs, &start, n)
+}
+
+/// definitions, then the start call under the probe
+pub fn run_forms(it: &mut Interp, defs: &[String], start: &str, n: u32) -> LoopResult {
+    for d in defs {
         let o = it.eval(d);
         if !matches!(o, Outcome::Val(_)) {
             return LoopResult { outcome: o, samples: 0, stack_first_half: 0, stack_second_half: 0, heap_first_half: 0, heap_second_half: 0 };
@@ -227,7 +232,7 @@ pub fn run_loop(it: &mut Interp, shape: &Shape, ctxs: &[usize], n: u32, failures
         v.reserve(n as usize + 16);
     });
     BASE.with(|b| b.set(0));
-    let outcome = it.eval(&start);
+    let outcome = it.eval(start);
     SAMPLES.with(|s| {
         let v = s.borrow();
         let k = v.len();
@@ -277,6 +282,92 @@ pub fn judge(r: &LoopResult, n: u32, expected: i64, ctx_names: &[&str]) -> Verdi
     let _ = heap_growth;
     let known = if (ctx_names.contains(&"apply") || ctx_names.contains(&"apply-leading-argument")) && stack_growth > 0 && (result_ok || format!("{}", r.outcome).contains("Extension")) { Some("apply-in-tail-position-uses-host-stack") } else { None };
     Verdict::Bad(": constant stack and heap per iteration, closed-form result".into(), problems.join("; "), known)
+}
+
+/// Scale ladder: the tail call behind W clauses / operands / body forms / bindings and inside D
+/// directly nested conditionals, binding forms and bodies, for every W and D up to the bound (a
+/// trampoline that gives up beyond some nesting depth, or a derived form whose long expansions are
+/// handled differently, shows here). (family, template builder)
+pub const SCALE_FAMILIES: &[&str] = &["if-nest", "if-nest-alternative", "cond-clause-k", "cond-else-after-k", "case-clause-k", "and-k", "or-k", "begin-k", "when-body-k", "let*-k-bindings", "let-k-bindings", "let-nest", "when-nest", "cond-nest", "mixed-nest"];
+
+pub fn scale_context(family: &str, w: usize, call: &str) -> String {
+    let rep = |s: &str, k: usize| s.repeat(k);
+    match family {
+        "if-nest" => format!("{}{}{}", rep("(if #t ", w), call, rep(" 0)", w)),
+        "if-nest-alternative" => format!("{}{}{}", rep("(if #f 0 ", w), call, rep(")", w)),
+        "cond-clause-k" => format!("(cond {}(#t {}))", rep("(#f 0) ", w), call),
+        "cond-else-after-k" => format!("(cond {}(else {}))", rep("(#f 0) ", w), call),
+        "case-clause-k" => format!("(case {} {}(({}) {}))", w, (0..w).map(|i| format!("(({}) 0) ", i)).collect::<String>(), w, call),
+        "and-k" => format!("(and {}{})", rep("#t ", w), call),
+        "or-k" => format!("(or {}{})", rep("#f ", w), call),
+        "begin-k" => format!("(begin {}{})", rep("0 ", w), call),
+        "when-body-k" => format!("(when #t {}{})", rep("0 ", w), call),
+        "let*-k-bindings" => format!("(let* ((t0 n) {}) {})", (1..=w).map(|i| format!("(t{} t{})", i, i - 1)).collect::<Vec<_>>().join(" "), call),
+        "let-k-bindings" => format!("(let ({}) {})", (0..=w).map(|i| format!("(t{} n)", i)).collect::<Vec<_>>().join(" "), call),
+        "let-nest" => format!("{}{}{}", rep("(let ((t n)) ", w), call, rep(")", w)),
+        "when-nest" => format!("{}{}{}", rep("(when #t ", w), call, rep(")", w)),
+        "cond-nest" => format!("{}{}{}", rep("(cond (#f 0) (else ", w), call, rep("))", w)),
+        _ => {
+            let opens = ["(if #t ", "(begin 0 ", "(let ((t 1)) ", "(cond (#t ", "(and #t ", "(when #t ", "(or #f "];
+            let closes = [" 0)", ")", ")", "))", ")", ")", ")"];
+            let mut s = String::new();
+            for i in 0..w {
+                s.push_str(opens[i % opens.len()]);
+            }
+            s.push_str(call);
+            for i in (0..w).rev() {
+                s.push_str(closes[i % closes.len()]);
+            }
+            s
+        }
+    }
+}
+
+/// (definitions, start) of the scale-ladder loop: shape 0 = self loop, 1 = a new closure of the same lambda per round
+pub fn scale_program(family: &str, w: usize, shape: usize, n: u32) -> (Vec<String>, String) {
+    if shape == 0 {
+        (vec![format!("(define (loop n acc) (probe) (if (= n 0) acc {}))", scale_context(family, w, "(loop (- n 1) (+ acc 1))"))], format!("(loop {} 0)", n))
+    } else {
+        (vec![format!("(define (make-step) (lambda (n acc) (probe) (if (= n 0) acc {})))", scale_context(family, w, "((make-step) (- n 1) (+ acc 1))"))], format!("((make-step) {} 0)", n))
+    }
+}
+
+fn scale_phase(max_w: usize) -> Acc {
+    let mut cs: Vec<(usize, usize, usize)> = vec![];
+    for (fi, f) in SCALE_FAMILIES.iter().enumerate() {
+        // nested forms are bounded by the depth the evaluator's own recursion allows on a 2 GB... keep them moderate
+        let top = if f.contains("nest") { max_w.min(150) } else { max_w };
+        for w in 2..=top {
+            cs.push((fi, w, w % 2));
+        }
+    }
+    let csr = &cs;
+    par::sweep(
+        cs.len() as u64,
+        4,
+        |_| {
+            let it = Interp::must_new();
+            it.it.env.define("probe".to_string(), probe_proc());
+            it
+        },
+        |it, acc: &mut Acc, i| {
+            let (fi, w, shape) = csr[i as usize];
+            let n = 200u32;
+            let (defs, start) = scale_program(SCALE_FAMILIES[fi], w, shape, n);
+            it.fresh_frame();
+            let r = run_forms(it, &defs, &start, n);
+            acc.evals += 1;
+            acc.transitions += r.samples as u64;
+            acc.count(&format!("scale ladder: {}", SCALE_FAMILIES[fi]), 1);
+            match judge(&r, n, n as i64, &[]) {
+                Verdict::Ok(h) => acc.distinct_hash(hash_of(&(h, fi, w / 16))),
+                Verdict::Bad(e, o, _) => acc.mismatch(
+                    Mismatch { idx: 50_000_000 + i, case: format!("[scale: {} width/depth {}] {}\n{}", SCALE_FAMILIES[fi], w, defs.join("\n"), start), expected: e, observed: o, payload: json!({"kind": "scale", "family": SCALE_FAMILIES[fi], "width": w, "shape": shape, "n": n}) },
+                    None,
+                ),
+            }
+        },
+    )
 }
 
 pub fn cases(max_depth: usize) -> Vec<(usize, Vec<usize>, u32, u32)> {
@@ -354,6 +445,9 @@ pub fn run(ctx: &Ctx) -> i32 {
             }
         },
     );
+    let mut acc = acc;
+    let scale = if ctx.thorough() { 400 } else { 130 };
+    acc.merge(scale_phase(scale));
     report::finish(
         acc,
         RunInfo {
@@ -361,8 +455,8 @@ pub fn run(ctx: &Ctx) -> i32 {
             tier: ctx.tier_name(),
             seed: ctx.seed,
             exhaustive: true,
-            rule: format!("every composition of the {} tail contexts {:?} of length 1..{} x {} loop shapes {:?} x N in {{64, 20000 (single contexts) / 3000 (compositions)}}, every single-context loop also after a history of 300 and 3000 failed evaluations (8 kinds, incl. errors deep inside non-tail recursion and rejected macro uses) on the same interpreter; every loop body calls a native probe that samples the machine stack depth and the thread's live heap; evaluations = loops, transitions = iterations observed; distinct = distinct (stack depth, heap delta) signatures", CONTEXTS.len(), CONTEXTS.iter().map(|c| c.0).collect::<Vec<_>>(), depth, SHAPES.len(), SHAPES.iter().map(|s| s.name).collect::<Vec<_>>()),
-            bounds: json!({"loops": total, "context_depth": depth, "iterations": [64, 3000, 20000]}),
+            rule: format!("every composition of the {} tail contexts {:?} of length 1..{} x {} loop shapes {:?} x N in {{64, 20000 (single contexts) / 3000 (compositions)}}, every single-context loop also after a history of 300 and 3000 failed evaluations (8 kinds, incl. errors deep inside non-tail recursion and rejected macro uses) on the same interpreter; scale ladder: the tail call behind W clauses / operands / body forms / bindings for every W <= 130 (thorough 400) and inside D directly nested conditionals / binding forms / bodies for every D <= 130 (thorough 150), 15 families, self loop and closure-per-round alternately; every loop body calls a native probe that samples the machine stack depth and the thread's live heap; evaluations = loops, transitions = iterations observed; distinct = distinct (stack depth, heap delta) signatures", CONTEXTS.len(), CONTEXTS.iter().map(|c| c.0).collect::<Vec<_>>(), depth, SHAPES.len(), SHAPES.iter().map(|s| s.name).collect::<Vec<_>>()),
+            bounds: json!({"loops": total, "context_depth": depth, "iterations": [64, 3000, 20000], "scale_ladder_max_width": scale}),
             assumptions: vec!["the invariant (no growth between the first and the second half of the iterations, byte-exact for the stack, 256 B slack for the heap) is what extends the claim beyond the executed N".into(), "live heap = bytes allocated minus freed on the evaluating thread (counting global allocator of the harness)".into()],
             wall_s: ctx.elapsed(),
             extra: json!({}),
@@ -371,6 +465,23 @@ pub fn run(ctx: &Ctx) -> i32 {
 }
 
 pub fn replay(p: &serde_json::Value) -> bool {
+    if p["kind"] == "scale" {
+        let (family, w, shape, n) = (p["family"].as_str().unwrap().to_string(), p["width"].as_u64().unwrap() as usize, p["shape"].as_u64().unwrap() as usize, p["n"].as_u64().unwrap() as u32);
+        return crate::drive::on_fresh_thread(move || {
+            let mut it = Interp::new().unwrap();
+            it.it.env.define("probe".to_string(), probe_proc());
+            let (defs, start) = scale_program(&family, w, shape, n);
+            println!("{}\n{}", defs.join("\n"), start);
+            let r = run_forms(&mut it, &defs, &start, n);
+            match judge(&r, n, n as i64, &[]) {
+                Verdict::Ok(_) => false,
+                Verdict::Bad(e, o, _) => {
+                    println!("expected {}\nobserved {}", e, o);
+                    true
+                }
+            }
+        });
+    }
     let si = p["shape"].as_u64().unwrap() as usize;
     let ctxs: Vec<usize> = p["contexts"].as_array().unwrap().iter().map(|x| x.as_u64().unwrap() as usize).collect();
     let n = p["n"].as_u64().unwrap() as u32;
